@@ -15,7 +15,9 @@ EXTENDS Integers, Sequences, FiniteSets, TLC
 
 CONSTANTS Actor,      \* actor slots (strings)
           Client,     \* client tasks (strings)
-          Dev         \* deviations switched on, subset of {"D1".."D5"} (DESIGN 3.6)
+          Dev,        \* deviations switched on, subset of {"D1".."D6"} (DESIGN 3.6)
+          Profile     \* "debug": from_registry pings a fresh instance while holding the registry lock (debug_assert!,
+                      \* service.rs:201); "release": it does not
 
 VARIABLES act,   \* [Actor -> record]   mailbox, event loop, actor value, notifier
           hnd,   \* handle table: handle name -> [kind, a, owner, polled]
@@ -487,17 +489,25 @@ RegBody(c) ==
                       /\ hst' = Log("hit", old)
                       /\ UNCHANGED <<act, rsp, reg>>
             ELSE \* spawn a fresh Default instance, register it (dropping a dead entry), ping it under the lock
-                 LET r == RegSlot(reg.n + 1) IN
+                 LET r == RegSlot(reg.n + 1)
+                     fresh == [UnbornActor EXCEPT !.pc = "starting", !.inst = hst.ninst + 1, !.ty = T,
+                                                   !.sscr = IF IsBrokerType(T) THEN <<>> ELSE ServiceCfgS,
+                                                   !.pscr = IF IsBrokerType(T) THEN <<>> ELSE ServiceCfgP] IN
                  /\ r \in Actor /\ act[r].pc = "unborn"
-                 /\ act' = [act EXCEPT ![r] = Enq([UnbornActor EXCEPT !.pc = "starting", !.inst = hst.ninst + 1, !.ty = T,
-                                                                        !.sscr = IF IsBrokerType(T) THEN <<>> ELSE ServiceCfgS,
-                                                                        !.pscr = IF IsBrokerType(T) THEN <<>> ELSE ServiceCfgP],
-                                                   [k |-> "task", m |-> m, rs |-> "ping", scr |-> <<>>, src |-> "mailbox"], DEAD)]
-                 /\ rsp' = (m :> [st |-> "pending", pos |-> 0, inst |-> 0, a |-> r]) @@ rsp
-                 /\ reg' = [reg EXCEPT !.ent = (T :> r) @@ @, !.lock = c, !.n = @ + 1]
-                 /\ cli' = [cli EXCEPT ![c] = [@ EXCEPT !.stage = "regping", !.ta = r, !.hold = [tx |-> TRUE, fo |-> TRUE, raw |-> FALSE]]]
-                 /\ hst' = [Log("spawn", r) EXCEPT !.ninst = @ + 1]
-                 /\ hnd' = hnd
+                 /\ IF Profile = "debug"
+                    THEN /\ act' = [act EXCEPT ![r] = Enq(fresh, [k |-> "task", m |-> m, rs |-> "ping", scr |-> <<>>, src |-> "mailbox"], DEAD)]
+                         /\ rsp' = (m :> [st |-> "pending", pos |-> 0, inst |-> 0, a |-> r]) @@ rsp
+                         /\ reg' = [reg EXCEPT !.ent = (T :> r) @@ @, !.lock = c, !.n = @ + 1]
+                         /\ cli' = [cli EXCEPT ![c] = [@ EXCEPT !.stage = "regping", !.ta = r, !.hold = [tx |-> TRUE, fo |-> TRUE, raw |-> FALSE]]]
+                         /\ hnd' = hnd
+                         /\ hst' = [Log("spawn", r) EXCEPT !.ninst = @ + 1]
+                    ELSE \* release: no ping, the lock is released at once; a ViaBroker operation goes on to its send in the same poll
+                         /\ act' = [act EXCEPT ![r] = IF op \in ViaBroker THEN Enq(fresh, BrokerPayload(op, m, c), DEAD) ELSE fresh]
+                         /\ rsp' = rsp
+                         /\ reg' = [reg EXCEPT !.ent = (T :> r) @@ @, !.n = @ + 1]
+                         /\ cli' = Finished(cli, c, Last("ok", 0, 0, r))
+                         /\ hnd' = IF op \in {"setup"} \cup ViaBroker THEN hnd ELSE NewH(hnd, nh, r, c)
+                         /\ hst' = [(IF op = "subscribe" THEN HSubDone(Log("spawn", r), T, c) ELSE Log("spawn", r)) EXCEPT !.ninst = @ + 1]
        [] op = "register" ->
             LET a0 == cli[c].ta IN
             IF has /\ ~(IF "D1" \in Dev THEN act[old].shared ELSE act[old].notif # "armed")
